@@ -6,7 +6,6 @@ use alloc::{vec, vec::Vec};
 use ixdtf::parsers::records::{TimeZoneRecord, UtcOffsetRecord};
 use num_traits::ToPrimitive;
 
-use crate::builtins::core::duration::DateDuration;
 use crate::parsers::{
     parse_allowed_timezone_formats, parse_identifier, parse_offset, FormattableOffset,
     FormattableTime, Precision,
@@ -19,9 +18,8 @@ use crate::{
     time::EpochNanoseconds,
     TemporalError, TemporalResult, ZonedDateTime,
 };
-use crate::{Calendar, Sign};
+use crate::Sign;
 
-const NS_IN_HOUR: i128 = 60 * 60 * 1000 * 1000 * 1000;
 
 /// A UTC time zone offset stored in minutes
 #[derive(Debug, Clone, Copy, PartialEq, Eq)]
@@ -279,40 +277,14 @@ impl TimeZone {
         //    which CompareISODateTime(before, isoDateTime) = -1 and !
         //    GetPossibleEpochNanoseconds(timeZone, before) is not
         //    empty.
-        let before = iso.add_date_duration(
-            Calendar::default(),
-            &DateDuration::default(),
-            NormalizedTimeDuration(-3 * NS_IN_HOUR),
-            None,
-        )?;
-
-        // 7. Let after be the earliest possible ISO Date-Time Record
-        //    for which CompareISODateTime(after, isoDateTime) = 1 and !
-        //    GetPossibleEpochNanoseconds(timeZone, after) is not empty.
-        let after = iso.add_date_duration(
-            Calendar::default(),
-            &DateDuration::default(),
-            NormalizedTimeDuration(3 * NS_IN_HOUR),
-            None,
-        )?;
-
-        // 8. Let beforePossible be !
-        //    GetPossibleEpochNanoseconds(timeZone, before).
-        // 9. Assert: beforePossible's length is 1.
-        let before_possible = self.get_possible_epoch_ns_for(before, provider)?;
-        debug_assert_eq!(before_possible.len(), 1);
-        // 10. Let afterPossible be !
-        //     GetPossibleEpochNanoseconds(timeZone, after).
-        // 11. Assert: afterPossible's length is 1.
-        let after_possible = self.get_possible_epoch_ns_for(after, provider)?;
-        debug_assert_eq!(after_possible.len(), 1);
-        // 12. Let offsetBefore be GetOffsetNanosecondsFor(timeZone,
-        //     beforePossible[0]).
-        let offset_before = self.get_offset_nanos_for(before_possible[0].0, provider)?;
-        // 13. Let offsetAfter be GetOffsetNanosecondsFor(timeZone,
-        //     afterPossible[0]).
-        let offset_after = self.get_offset_nanos_for(after_possible[0].0, provider)?;
-        // 14. Let nanoseconds be offsetAfter - offsetBefore.
+        // Probe the offsets one day before and one day after the (UTC-interpreted) local time, as
+        // DisambiguatePossibleEpochNanoseconds specifies: both probes are real instants, so they
+        // cannot themselves fall into the skipped interval, whatever its length.
+        let utc_epoch = iso.as_nanoseconds()?.0;
+        let day_before = EpochNanoseconds::try_from(utc_epoch - i128::from(crate::NS_PER_DAY))?;
+        let day_after = EpochNanoseconds::try_from(utc_epoch + i128::from(crate::NS_PER_DAY))?;
+        let offset_before = self.get_offset_nanos_for(day_before.0, provider)?;
+        let offset_after = self.get_offset_nanos_for(day_after.0, provider)?;
         let nanoseconds = offset_after - offset_before;
         // 15. Assert: abs(nanoseconds) ≤ nsPerDay.
         // 16. If disambiguation is earlier, then
